@@ -118,7 +118,7 @@ def sent_update(w, mark):
     return bytes(body[2:2 + wl]), split_attrs(body[4 + wl:4 + wl + al]), bytes(body[4 + wl + al:])
 
 
-def ob_send_update(med: int, a: int, b: int, las: int, ras: int) -> bool:
+def ob_send_update(med: int, a: int, b: int, las: int, ras: int, lp: int) -> bool:
     """POST send/update in Established: exactly the requested message (+ default LOCAL_PREF on iBGP) is written"""
     assume(0 <= med < 2 ** 32 and 0 <= a < 256 and 0 <= b < 256)
     assume(1 <= las < 65536 and 1 <= ras < 65536)
@@ -140,8 +140,9 @@ def ob_send_update(med: int, a: int, b: int, las: int, ras: int) -> bool:
         nlri = ['%s.%s.%s.%s/%s' % (172, a, 0, 0, 16)]
         exp_nlri = E.prefix([172, a], 16)
     if shape == 'announce+lp':
-        attr['5'] = 200
-        exp_attrs[5] = E.local_pref(200)
+        assume(0 <= lp < 2 ** 32)
+        attr['5'] = lp
+        exp_attrs[5] = E.local_pref(lp)
     if shape in ('withdraw', 'announce+withdraw'):
         withdraw = ['%s.%s.%s.%s/%s' % (192, 168, b, 0, 24)]
         exp_wd = E.prefix([192, 168, b], 24)
@@ -239,7 +240,7 @@ def obligations(tier, seed):
     S._conf()
     out = []
     rules = rest.peer_rules()
-    states = [S.ESTABLISHED] if quick else [S.IDLE, S.CONNECT, S.OPENSENT, S.OPENCONFIRM, S.ESTABLISHED]
+    states = [S.IDLE, S.ESTABLISHED] if quick else [S.IDLE, S.CONNECT, S.OPENSENT, S.OPENCONFIRM, S.ESTABLISHED]
     for (endpoint, rule, method, args) in rules:
         for st in states:
             if st in (S.IDLE, S.CONNECT) and endpoint in ('v1.get_peer_statistic', 'v1.get_peer_version'):
